@@ -1,5 +1,7 @@
 import Bifrost.Model.SolicitHub
 import Bifrost.Lemmas.SolicitHub
+import Bifrost.Lemmas.SolicitPar
+import Bifrost.Gen.Limits
 import Bifrost.Props.C30Sys
 /-!
 C30 on a node with SEVERAL links — `Bifrost.SolicitHub`: one solicitation controller whose
@@ -142,6 +144,118 @@ theorem hub_recv_admits (H : Bytes → Bytes) (cfgs : List Cfg) (ops : List Soli
   cases hs
   obtain ⟨_, _, ha, _⟩ := (inv_run H c (projOps i ops)).c'.recvSound .A r hr
   exact ha
+
+/-! ### Every offered list fits one exchange message
+
+`max_hashes` is configuration; the size of an exchange message is not (`maxMessageSize`, which the
+READER of the remote peer enforces: a longer message ends the control stream). `NewController`
+clamps the limit to what one message carries — 34 bytes per hash on the wire (field tag, length
+byte, 32 bytes) — so whatever the configuration and however many solicitations are admitted, the
+list a controller offers is one the peer's reader accepts. (Found false of the code before the
+clamp: max_hashes = 600 and 503 admitted solicitations ended the exchange on the link for good.) -/
+
+/-- `NewController`: configured `max_hashes` (0 = default 256), clamped to `maxWireHashes` -/
+def effMax (conf : Nat) : Nat :=
+  min (if conf = 0 then 256 else conf) (Gen.Limits.solicitMaxMessageSize / 34)
+
+theorem offered_list_fits_message (H : Bytes → Bytes) (c : Cfg) (x : Side) (n : Node) (conf : Nat)
+    (hm : c.max x = effMax conf) :
+    34 * (hashList H c x n).length ≤ Gen.Limits.solicitMaxMessageSize := by
+  have hl : (hashList H c x n).length ≤ c.max x := by
+    unfold hashList
+    rw [List.length_take]
+    exact Nat.min_le_left _ _
+  have hc : c.max x ≤ Gen.Limits.solicitMaxMessageSize / 34 := by
+    rw [hm]; exact Nat.min_le_right _ _
+  calc 34 * (hashList H c x n).length ≤ 34 * (Gen.Limits.solicitMaxMessageSize / 34) :=
+        Nat.mul_le_mul_left _ (hl.trans hc)
+    _ ≤ Gen.Limits.solicitMaxMessageSize := Nat.mul_div_le _ _
+
+/-- the default limit, and any configured limit, is a positive one: the clamp never disables the exchange -/
+example : effMax 0 = 256 ∧ effMax 600 = 481 ∧ effMax 3 = 3 := by decide
+
+/-! ### Parallel links, and links that are removed and re-established
+
+Two links between the SAME two nodes are two links of the hub whose spoke side carries the same
+directive changes (one `handleSolicitProtocol` resolver inserts into the one `c.solicitations` of
+the spoke's controller, which all its links filter). A link that is removed and re-established is,
+for both controllers, a NEW link (`removeLink` drops the `linkState`, `addLink` allocates another
+one — session id and `localIsLower` recomputed, `matched` empty): a further link index whose own
+actions start when it comes up, while the removed one takes no further step. -/
+
+/-- the spoke directive changes link `i` sees in a hub history -/
+def spokeChanges (i : Nat) (ops : List SolicitHub.Op) : List SolicitSys.Op :=
+  (projOps i ops).filter spokeDir
+
+/-- What the spoke side of link `i` holds (instance ids, parameters, next id) is determined by the
+spoke directive changes of link `i` alone. -/
+theorem spoke_dirs_of_link (H : Bytes → Bytes) (cfgs : List Cfg) (ops : List SolicitHub.Op)
+    (i : Nat) (c : Cfg) (s : SolicitSys.State) (hc : cfgs[i]? = some c)
+    (hs : (SolicitHub.run H cfgs ops)[i]? = some s) :
+    (spokeDirs s, s.b.nextDir) = (spokeChanges i ops).foldl dirStepB ([], 0) := by
+  rw [hub_link_is_exchange H cfgs ops i c hc] at hs
+  cases hs
+  exact bDirs_run H c (projOps i ops)
+
+/-- PARALLEL links: two links of a node that carry the same spoke directive changes (they end at
+the same remote node) hold the same directive instances on BOTH sides — whatever their
+configurations (transports, limits) and whatever else happened on either of them. Each of them is
+an instance of the two-sided exchange (`hub_link_is_exchange`), so a pair of solicitations is
+matched on each link on its own, by that link's constraints. -/
+theorem parallel_links_share_dirs (H : Bytes → Bytes) (cfgs : List Cfg) (ops : List SolicitHub.Op)
+    (i j : Nat) (ci cj : Cfg) (si sj : SolicitSys.State)
+    (hci : cfgs[i]? = some ci) (hcj : cfgs[j]? = some cj)
+    (hsi : (SolicitHub.run H cfgs ops)[i]? = some si) (hsj : (SolicitHub.run H cfgs ops)[j]? = some sj)
+    (hm : spokeChanges i ops = spokeChanges j ops) :
+    hubDirs si = hubDirs sj ∧ spokeDirs si = spokeDirs sj ∧ si.b.nextDir = sj.b.nextDir := by
+  have hi := spoke_dirs_of_link H cfgs ops i ci si hci hsi
+  have hj := spoke_dirs_of_link H cfgs ops j cj sj hcj hsj
+  rw [hm] at hi
+  have h := hi.trans hj.symm
+  exact ⟨(hub_dirs_shared H cfgs ops i ci si hci hsi).trans (hub_dirs_shared H cfgs ops j cj sj hcj hsj).symm,
+    congrArg Prod.fst h, congrArg Prod.snd h⟩
+
+/-- A RE-ESTABLISHED link: as long as link `j` has taken no step of its own besides the directive
+changes of its two nodes (it has not come up yet), it is a fresh link — nothing was ever offered,
+received, matched, opened or delivered on it, whatever happened on the link it replaces (any other
+index, same configuration or not) — and every directive instance its two nodes hold is `early` on
+it: the completeness theorem `C30Sys.matched_iff_quiescent_partial` (through
+`per_link_theorems_hold`) applies to all of them once it is up, i.e. the solicitations both nodes
+still hold are matched AGAIN on the re-established link. -/
+theorem relinked_is_fresh (H : Bytes → Bytes) (cfgs : List Cfg) (ops : List SolicitHub.Op)
+    (j : Nat) (c : Cfg) (s : SolicitSys.State) (hc : cfgs[j]? = some c)
+    (hs : (SolicitHub.run H cfgs ops)[j]? = some s)
+    (hq : ∀ o, SolicitHub.Op.link j o ∈ ops → dirChange o = true) : Fresh s := by
+  rw [hub_link_is_exchange H cfgs ops j c hc] at hs
+  cases hs
+  refine fresh_run H c _ fun o ho => ?_
+  rcases mem_projOps j ops o ho with ⟨d, rfl⟩ | ⟨id, rfl⟩ | h
+  · rfl
+  · rfl
+  · exact hq o h
+
+/-! Non-vacuity: two parallel links (one peer pair, transports 7/8 and 9/10) and a third index
+that re-establishes the first one. A pair of solicitations is connected on link 0 and on link 1
+(once per link); link 0 then stays as it is, and the same two solicitations are connected AGAIN on
+its new incarnation (index 2) — on which, before it came up, nothing had happened. -/
+section parallel
+def HidP : Bytes → Bytes := fun x => x
+def cfgsP : List Cfg := [⟨[1], [2], 7, 8, 4, 4⟩, ⟨[1], [2], 9, 10, 4, 4⟩, ⟨[1], [2], 7, 8, 4, 4⟩]
+def dP : Dir := ⟨[5], [6], [], 0⟩
+def hP : Bytes := HidP (protocolPreimage (HidP (sessionPreimage [1] [2])) [5] [6])
+def dirsP : List SolicitHub.Op := [.add dP, .link 0 (.add .B dP), .link 1 (.add .B dP), .link 2 (.add .B dP)]
+def matchOn (i : Nat) : List SolicitHub.Op :=
+  [.link i (.sync .A), .link i (.sync .B), .link i (.deliver .A), .link i (.deliver .B),
+   .link i (.open .A hP), .link i (.arrive .B 0)]
+
+example : ((SolicitHub.run HidP cfgsP (dirsP ++ matchOn 0 ++ matchOn 1)).map fun s =>
+    (s.a.recv.length, s.b.recv.length, s.a.matched.length)) = [(1, 1, 1), (1, 1, 1), (0, 0, 0)] := by decide +kernel
+
+example : ((SolicitHub.run HidP cfgsP (dirsP ++ matchOn 0 ++ matchOn 1 ++ matchOn 2)).map fun s =>
+    (s.a.recv.length, s.b.recv.length)) = [(1, 1), (1, 1), (1, 1)] := by decide +kernel
+
+example : spokeChanges 0 (dirsP ++ matchOn 0 ++ matchOn 1) = spokeChanges 2 (dirsP ++ matchOn 0 ++ matchOn 1) := by decide +kernel
+end parallel
 
 /-! ### Non-vacuity: a hub with two links over ONE transport to different peers -/
 section witness
